@@ -542,6 +542,12 @@ class Engine:
                 old = c.snapshot()
                 bound = {k: v for k, v in a.items() if not k.startswith("$")}
                 try:
+                    kwname = fnode.args.kwarg.arg if fnode.args.kwarg else None
+                    extra_kw = bound.pop(kwname, None) if kwname else None
+                    dframe = pframe or Frame("<defaults>", mod, {}, None, None)
+                    bound = self.interp.bind_args(c, fnode, [], dict(bound), lambda d: self._default(c, d, dframe), qual)
+                    if extra_kw is not None:
+                        bound[kwname] = extra_kw
                     res = self.interp.run_function(c, fnode, mod, dict(bound), qual, parent=pframe)
                 except PyExc as pe:
                     exc = pe.exc
